@@ -153,8 +153,7 @@ func helpOutput(c *HelpCase) (string, Outcome) {
 		WithSwap(&out2, func() { _ = app.Run(argv) })
 		if out2.Panic != "" {
 			out.Panic = "second rendering: " + out2.Panic
-		} else if out2.Stderr != out.Stderr {
-			out.Err = "DIFFERENT-SECOND-RENDERING"
+		} else {
 			out.Raw = map[string][]string{"second": {out2.Stderr}}
 		}
 	}()
@@ -265,9 +264,20 @@ func CheckC17(c *HelpCase, st *Stats) *Violation {
 	if out.Panic != "" {
 		return Violf("printing help panicked: %s", out.Panic)
 	}
-	if out.Err == "DIFFERENT-SECOND-RENDERING" {
-		return Violf("the same help request printed a second time on the same application differs:\n--- first ---\n%s\n--- second ---\n%s", text, out.Raw["second"][0])
+	if v := checkHelpText(c, text, st, true); v != nil {
+		return v
 	}
+	if sec := out.Raw["second"]; len(sec) == 1 {
+		// the same request rendered a second time on the same application object must satisfy the same oracle
+		if v := checkHelpText(c, sec[0], st, false); v != nil {
+			v.Msg = "second rendering of the same help request on the same application object: " + v.Msg
+			return v
+		}
+	}
+	return nil
+}
+
+func checkHelpText(c *HelpCase, text string, st *Stats, book bool) *Violation {
 	ws := strings.Fields(text)
 	fail := func(format string, a ...interface{}) *Violation {
 		return Violf(format+"\n--- help text ---\n%s", append(a, text)...)
@@ -467,6 +477,9 @@ func CheckC17(c *HelpCase, st *Stats) *Violation {
 		if !it.IsArg && len(optAnchor(it.Names)) == 1 {
 			partial = true
 		}
+	}
+	if !book {
+		return nil
 	}
 	if hiddenCmd {
 		st.Class("has:hidden-command")
